@@ -472,9 +472,52 @@ def _forwarding(r, p, cg, check, fix):
                         if fi.name == "__init__" and isinstance(t.value, ast.Name) and t.value.id == "self":
                             continue  # construction of an arguments object, not a write onto the shared one
                         if fi.key == "vsg.config:update_command_line_arguments" and t.attr == "skip_phase":
-                            r.ok("C13.forwarding", kk + ":" + norm(n.value), "configuration skip_phase -> command line object")
+                            why = _not_verbatim(p, fi, n.value, "skip_phase")
+                            if why is None:
+                                r.ok("C13.forwarding", kk + ":" + norm(n.value), "configuration skip_phase -> command line object, verbatim (or the empty default)")
+                            else:
+                                r.fail("C13.forwarding", kk + ":verbatim", "the configured skip_phase list does not reach the phase loops as written: %s - a configured phase can be dropped or added, so phases the user skipped still run (or the reverse)" % why, fi.loc(n))
                         else:
                             r.fail("C13.forwarding", kk, "unexpected writer of %s" % t.attr, fi.loc(n))
+
+
+def _not_verbatim(p, fi, e, key, depth=0, env=None):
+    """None when e is the configuration's `key` entry itself (through a copy, .get with an empty default, `or []`), or an
+    empty list / None default; otherwise a description of what is done to it."""
+    env = env or {}
+    if isinstance(e, ast.Constant) and e.value is None:
+        return None
+    if isinstance(e, (ast.List, ast.Tuple)) and not e.elts:
+        return None
+    if isinstance(e, ast.Subscript) and isinstance(e.slice, ast.Constant) and e.slice.value == key:
+        return None
+    if isinstance(e, ast.Call) and isinstance(e.func, ast.Attribute) and e.func.attr == "get" and e.args and isinstance(e.args[0], ast.Constant) and e.args[0].value == key:
+        if len(e.args) == 1 or _not_verbatim(p, fi, e.args[1], key, depth, env) is None:
+            return None
+    if isinstance(e, ast.BoolOp) and isinstance(e.op, ast.Or):
+        bad = [_not_verbatim(p, fi, v, key, depth, env) for v in e.values]
+        return next((b for b in bad if b), None)
+    if isinstance(e, ast.IfExp):
+        return _not_verbatim(p, fi, e.body, key, depth, env) or _not_verbatim(p, fi, e.orelse, key, depth, env)
+    if isinstance(e, ast.Call) and isinstance(e.func, ast.Name) and e.func.id in ("list", "tuple") and len(e.args) == 1:
+        return _not_verbatim(p, fi, e.args[0], key, depth, env)
+    if isinstance(e, ast.Name):
+        vals = [a.value for a in walk_function(fi.node) if isinstance(a, ast.Assign) and len(a.targets) == 1 and norm(a.targets[0]) == e.id]
+        muts = [c for c in walk_function(fi.node) if isinstance(c, ast.Call) and isinstance(c.func, ast.Attribute) and norm(c.func.value) == e.id and c.func.attr in ("append", "remove", "pop", "extend", "insert", "clear", "sort")]
+        if vals and not muts and depth < 4:
+            bad = [_not_verbatim(p, fi, v, key, depth + 1, env) for v in vals]
+            return next((b for b in bad if b), None)
+        if muts:
+            return "`%s` is built element by element in %s (`%s`)" % (e.id, fi.name, norm(muts[0])[:40])
+    if isinstance(e, ast.Call) and isinstance(e.func, (ast.Name, ast.Attribute)) and depth < 3:
+        ent = p.resolve_expr(fi.module, e.func)
+        if ent and ent[0] == "func":
+            g = ent[1]
+            rets = [x.value for x in walk_function(g.node) if isinstance(x, ast.Return)]
+            if rets:
+                bad = [_not_verbatim(p, g, v, key, depth + 1, env) for v in rets]
+                return next((b for b in bad if b), None)
+    return "`%s` is not the configuration's %s entry" % (norm(e)[:50], key)
 
 
 def _bind_args(fi, call):
@@ -491,6 +534,11 @@ def _bind_args(fi, call):
 
 _RL = "vsg/rule_list.py"
 VARIANTS = [
+    Variant("C13", "configured skip_phase filtered to phases 1..6 on its way to the phase loops", "fire",
+            [("vsg/config.py", "        commandLineArguments.skip_phase = configuration[\"skip_phase\"]", "        commandLineArguments.skip_phase = [iPhase for iPhase in configuration[\"skip_phase\"] if iPhase in range(1, 7)]")],
+            rule="C13.forwarding", key="verbatim"),
+    Variant("C13", "twin: configured skip_phase read with .get and an empty default", "silent",
+            [("vsg/config.py", "    if \"skip_phase\" in configuration:\n        commandLineArguments.skip_phase = configuration[\"skip_phase\"]\n    else:\n        commandLineArguments.skip_phase = []", "    commandLineArguments.skip_phase = configuration.get(\"skip_phase\", [])")]),
     Variant("C13", "violations of the fix pass are not discarded before the gated check", "fire",
             [("vsg/apply_rules.py", "    oRules.clear_violations()\n    oRules.check_rules(", "    oRules.check_rules("),
              ("vsg/rule.py", "        lToi = self._get_tokens_of_interest(oFile)\n        self._analyze(lToi)", "        self.clear_violations()\n        lToi = self._get_tokens_of_interest(oFile)\n        self._analyze(lToi)")], rule="C13.forwarding", key="clear-before-check"),
